@@ -9,6 +9,7 @@ import (
 	"os"
 
 	"lcverif/common"
+	"lcverif/rk"
 	"lcverif/rng"
 )
 
@@ -20,6 +21,10 @@ func die(f string, a ...interface{}) {
 }
 
 func main() {
+	if len(os.Args) >= 2 && os.Args[1] == "rk-child" {
+		rk.ChildMain()
+		return
+	}
 	if len(os.Args) < 3 {
 		die("usage: lcv <prop> gen|replay ...")
 	}
